@@ -25,6 +25,29 @@ c_genx(void)
     json_decref(t);
 }
 
+/* gen2 <template 1> <template 2>: generate a key, then treat it the way an application may (public export in place,
+ * key_ops emptied), then generate a second key: the second generation must not depend on the first
+ *   -> OK TAB second key | ERR */
+static void
+c_gen2(void)
+{
+    json_t *a = jarg(F[1]);
+    json_t *b = jarg(F[2]);
+
+    if (jose_jwk_gen(NULL, a)) {
+        (void) jose_jwk_pub(NULL, a);
+        json_array_clear(json_object_get(a, "key_ops"));
+    }
+    if (jose_jwk_gen(NULL, b)) {
+        fputs("OK\t", stdout);
+        putjson(b);
+    } else {
+        fputs("ERR", stdout);
+    }
+    json_decref(a);
+    json_decref(b);
+}
+
 static void
 c_genhooks(void)
 {
@@ -86,6 +109,7 @@ c_genhooks(void)
 
 static const cmd_t cmds_gen[] = {
     { "genx", c_genx },
+    { "gen2", c_gen2 },
     { "genhooks", c_genhooks },
     { NULL, NULL }
 };
